@@ -22,6 +22,7 @@ Definition run (kind : Z) (inp : list Z) : list Z :=
   | 501 => run_restart true inp
   | 502 => run_osync inp
   | 601 => run_accept inp
+  | 602 => run_nesting inp
   | 701 => run_accept_paths inp
   | 702 => run_open_path inp
   | 703 => run_tar_target inp
@@ -79,6 +80,7 @@ Definition mon (kind : Z) (inp obs : list Z) : bool :=
   | 501 => mon_restart inp obs
   | 502 => list_eqb_Z (run_osync inp) obs
   | 601 => mon_accept inp obs
+  | 602 => list_eqb_Z (run_nesting inp) obs
   | 701 => mon_accept_paths inp obs
   | 702 => mon_open_path inp obs
   | 703 => mon_tar_target inp obs
